@@ -38,6 +38,9 @@ func (l *dedicatedAllocationList) Validate() error {
 }
 
 func (l *dedicatedAllocationList) AddDetailedStatistics(stats *memutils.DetailedStatistics) {
+	l.mutex.RLock()
+	defer l.mutex.RUnlock()
+
 	for item := l.allocationListHead; item != nil; item = item.nextDedicatedAlloc() {
 		size := item.size
 		stats.Statistics.BlockCount++
